@@ -512,6 +512,11 @@ class PyExec:
         if isinstance(n, ast.AugAssign):
             cur = self.eval(st, n.target, env)
             r = self.eval(st, n.value, env)
+            if isinstance(cur, Opaque):
+                # numpy in-place operator: the buffer of the target is written, the object identity is kept
+                st.writes.append((cur.buf, getattr(n, "lineno", None)))
+                self.assign(st, n.target, Opaque("in-place update of " + cur.why, buf=cur.buf), env)
+                return [(st, "normal", None, env)]
             self.assign(st, n.target, self.binop(st, n.op, cur, r, n), env)
             return [(st, "normal", None, env)]
         if isinstance(n, ast.Return):
@@ -1151,6 +1156,8 @@ class PyExec:
         o = self.eval(st, n.value, env)
         a = n.attr
         if isinstance(o, Opaque):
+            if a in ("T", "real", "imag", "flat"):
+                return Opaque(a + " view of " + o.why, buf=o.buf)
             return Opaque("attribute of an abstracted value")
         if isinstance(o, SuperRef):
             cls = o.cls
@@ -1263,6 +1270,10 @@ class PyExec:
                                     label=("array stored in the list (%s) shares its buffer with an array written in place at line(s) %s" % (x.why, hits)) if hits
                                     else "arrays stored in the list are not overwritten in place")
                 return Opaque("copy of a list of arrays")
+            if f.name.split(".")[-1] in ("asarray", "ascontiguousarray", "asanyarray", "atleast_1d", "atleast_2d", "ravel", "reshape") \
+                    and args and isinstance(args[0], Opaque):
+                # these return the same memory when no conversion is needed
+                return Opaque(f.name.split(".")[-1] + "(" + args[0].why + ")", buf=args[0].buf)
             if any(isinstance(a_, Opaque) for a_ in list(args) + list(kwargs.values())):
                 return Opaque("library call on an abstracted value")
             try:
